@@ -648,10 +648,12 @@ func (d *BasicDirectory) computeEstimatedSizeAndTotalLinks() {
 
 	mode := d.GetSizeEstimationMode()
 	if mode == SizeEstimationBlock && d.node != nil {
-		// Compute data field size from stored metadata (no serialization needed).
-		// The mode and mtime fields are extracted in NewBasicDirectoryFromNode
-		// or set via WithStat option during creation.
-		d.estimatedSize = dataFieldSerializedSize(d.mode, d.mtime)
+		// The UnixFS Data field is stored in the node as bytes: use its real
+		// length (tag + length varint + bytes), which is exact for whatever the
+		// node carries (e.g. an explicit mode field of 0), no serialization needed.
+		if data := d.node.Data(); data != nil {
+			d.estimatedSize = 1 + varintLen(uint64(len(data))) + len(data)
+		}
 
 		// Add link sizes using linkSerializedSize function
 		for _, l := range d.node.Links() {
